@@ -14,7 +14,7 @@ __all__ = ['interior_vertex_func', 'CenterTime', 'CenterLay', 'CenterRow',
            'CAMxHeightToDepth', 'ConvertCAMxTime']
 
 import unittest
-from numpy import mean, array, sum, arange, zeros, newaxis
+from numpy import mean, array, sum, arange, zeros, newaxis, where
 from warnings import warn
 from PseudoNetCDF.sci_var import PseudoNetCDFVariable
 
@@ -114,10 +114,9 @@ def ConvertCAMxTime(date, time, nvars):
     if len(a.shape) == 2:
         a = a[:, newaxis, :]
     date = a[:, :, 0]
-    if (date < 70000).any():
-        date += 2000000
-    else:
-        date += 1900000
+    # two-digit years: 70-99 are 1970-1999 and 00-69 are 2000-2069,
+    # decided per time step (a file may cross from 1999 to 2000)
+    date += where(date < 70000, 2000000, 1900000).astype(date.dtype)
     time = a[:, :, 1]
     while not (time == 0).all() and time.max() < 10000:
         time *= 100
